@@ -1,18 +1,24 @@
 (* C02 -- what a passing correspondence check buys: an observed outcome that [Check.C02.agree]
-   accepts is an element of the model's outcome set, so the theorems about ALL schedules of the
-   job machine apply to what the implementation was seen to do. *)
-From Verif Require Import Lib.Base Lib.Sched Lib.Reach Model.C02_Scheduler Model.C02_Script Proofs.C02 Proofs.C02_Script.
+   accepts is the outcome of one of the states in which the model's script can end, so the
+   theorems about ALL schedules of the job machine and ALL scripts apply to what the
+   implementation was seen to do. *)
+From Verif Require Import Lib.Base Lib.Sched Lib.Reach Model.C02_Scheduler Model.C02_Script.
+From Verif Require Import Proofs.C02 Proofs.C02_Script Proofs.C02_ScriptExact.
 From Verif Require Import Check.C02.
 
 Lemma list_eqb_N : forall a b, list_eqb N.eqb a b = true -> a = b.
 Proof. intros a b H; apply (list_eqb_spec N.eqb N.eqb_eq); exact H. Qed.
 
-Lemma obs_match_starts : forall ms ob, obs_match ms ob = true ->
-    exists m, In m ms /\ o_starts (ob_out ob) = o_starts m /\ o_panic (ob_out ob) = o_panic m
-              /\ o_overlap (ob_out ob) = o_overlap m.
+(* what both kinds of match give *)
+Lemma obs_match_final : forall ts ob, obs_match ts ob = true ->
+    exists t, In t ts /\ running (t_core t) = ob_running ob
+              /\ list_match cst_match (o_calls (ob_out ob)) (o_calls (outcome_of t)) = true
+              /\ o_starts (ob_out ob) = o_starts (outcome_of t)
+              /\ o_panic (ob_out ob) = o_panic (outcome_of t)
+              /\ o_overlap (ob_out ob) = o_overlap (outcome_of t).
 Proof.
-  intros ms ob H. unfold obs_match in H. apply existsb_exists in H as [m [Hm H]].
-  exists m. split; [exact Hm|].
+  intros ts ob H. unfold obs_match in H. apply existsb_exists in H as [t [Ht H]].
+  exists t. split; [exact Ht|]. apply andb_prop in H as [H Hr]. apply N.eqb_eq in Hr. split; [exact Hr|].
   destruct (ob_hung ob).
   - unfold hung_match in H. repeat (apply andb_prop in H as [H ?]).
     repeat match goal with
@@ -31,7 +37,7 @@ Proof.
 Qed.
 
 Lemma agree_timed : forall c sc os, agree c = true -> c_body c = Timed sc os ->
-    forall ob, In ob os -> obs_match (outcomes sc) ob = true.
+    forall ob, In ob os -> obs_match (finals sc) ob = true.
 Proof.
   intros c sc os Ha Hb ob Hob. unfold agree in Ha. rewrite Hb in Ha.
   destruct os as [|o os']; [discriminate Ha|].
@@ -44,7 +50,69 @@ Lemma checked_never_twice : forall c sc os, agree c = true -> c_body c = Timed s
       /\ (sc_kind sc = OneOff -> (length (o_starts (ob_out ob)) <= 1)%nat).
 Proof.
   intros c sc os Ha Hb ob Hob.
-  destruct (obs_match_starts _ _ (agree_timed c sc os Ha Hb ob Hob)) as [m [Hm [Hs [Hp Ho]]]].
-  destruct (script_never_twice sc m Hm) as [H1 [H2 H3]].
+  destruct (obs_match_final _ _ (agree_timed c sc os Ha Hb ob Hob)) as [t [Ht [_ [_ [Hs [Hp Ho]]]]]].
+  assert (Hm : In (outcome_of t) (outcomes sc)) by (unfold outcomes; apply in_map; exact Ht).
+  destruct (script_never_twice sc _ Hm) as [H1 [H2 H3]].
   rewrite Hs, Hp, Ho. auto.
+Qed.
+
+(* statuses: an observed status matches the model's; RunJobIfExists / CancelJobIfExists are silent *)
+Lemma list_match_nth : forall {X} (f : X -> X -> bool) a b i m,
+    list_match f a b = true -> nth_error b i = Some m -> exists o, nth_error a i = Some o /\ f o m = true.
+Proof.
+  intros X f a; induction a as [|x a IH]; intros b i m H Hn; destruct b as [|y b]; cbn in H; try discriminate H.
+  - destruct i; discriminate Hn.
+  - apply andb_prop in H as [H1 H2]. destruct i.
+    + cbn in Hn. injection Hn as <-. exists x. split; [reflexivity | exact H1].
+    + cbn in Hn. cbn [nth_error]. eapply IH; eauto.
+Qed.
+
+Lemma cst_n_inj : forall a b, cst_n a = cst_n b -> a = b.
+Proof.
+  intros a b H.
+  destruct a as [| | |c|[|]| |], b as [| | |d|[|]| |]; cbn in H; try reflexivity;
+    try (destruct c; cbn in H; discriminate H); try (destruct d; cbn in H; discriminate H); try discriminate H.
+  destruct c, d; cbn in H; try reflexivity; discriminate H.
+Qed.
+
+Lemma cst_match_ret_nil : forall o, cst_match o (Ret Nil) = true -> o = Ret Nil \/ o = Silent.
+Proof.
+  intros o H. destruct o as [| | |c|b| |]; try (vm_compute in H; discriminate H).
+  - destruct c; try (vm_compute in H; discriminate H). left; reflexivity.
+  - destruct b; vm_compute in H; discriminate H.
+  - right; reflexivity.
+Qed.
+
+(* an observed call of kind k "may have succeeded": it returned nil or it is silent *)
+Definition obs_no_success (sc : script) (k : ckind) (sts : list cst) : Prop :=
+  forall i cl, nth_error (sc_calls sc) i = Some cl -> cl_kind cl = k ->
+               nth_error sts i <> Some (Ret Nil) /\ nth_error sts i <> Some Silent.
+
+Lemma final_statuses : forall t, o_calls (outcome_of t) = map final_status (t_calls t).
+Proof. reflexivity. Qed.
+
+Lemma final_status_ret_nil : forall s, s = Ret Nil -> final_status s = Ret Nil.
+Proof. intros s ->; reflexivity. Qed.
+
+(* exactly once for a checked observation: a one-off script whose time is inside the script, no
+   CancelJob(-IfExists) seen to succeed or be silent, no context cancellation issued, jobFunc not
+   in progress at the end: the implementation was seen to start jobFunc exactly once *)
+Lemma checked_exactly_once : forall c sc os, agree c = true -> c_body c = Timed sc os ->
+    sc_kind sc = OneOff -> sc_variant sc = Fixed -> sc_due sc <= sc_end sc ->
+    forall ob, In ob os -> ob_running ob = 0 ->
+      obs_no_success sc KCancel (o_calls (ob_out ob)) -> obs_no_success sc KCtx (o_calls (ob_out ob)) ->
+      length (o_starts (ob_out ob)) = 1%nat.
+Proof.
+  intros c sc os Ha Hb Hk Hv Hdue ob Hob Hrun Hnc Hnx.
+  destruct (obs_match_final _ _ (agree_timed c sc os Ha Hb ob Hob)) as [t [Ht [Hr [Hcalls [Hs _]]]]].
+  rewrite Hs.
+  assert (Hno : forall k, obs_no_success sc k (o_calls (ob_out ob)) -> no_ret_nil sc k (t_calls t)).
+  { intros k Hobs i cl H1 H2 H3.
+    assert (Hm : nth_error (o_calls (outcome_of t)) i = Some (Ret Nil)).
+    { rewrite final_statuses, nth_error_map, H3. reflexivity. }
+    destruct (list_match_nth _ _ _ _ _ Hcalls Hm) as [o [Ho Hmatch]].
+    destruct (Hobs i cl H1 H2) as [Hn1 Hn2].
+    destruct (cst_match_ret_nil o Hmatch) as [-> | ->]; [exact (Hn1 Ho) | exact (Hn2 Ho)]. }
+  apply (script_exactly_once_obs sc Hk Hv t Ht Hdue (Hno _ Hnc) (Hno _ Hnx)).
+  rewrite Hr; exact Hrun.
 Qed.
